@@ -37,8 +37,8 @@ Idx(arr, i) == Node("ArrayIndex", arr, <<i>>)
 
 LeafSet(ty) ==
   IF Leaves = "full" THEN
-    CASE ty = "int" -> {IntLit(0), IntLit(1), IntLit(2), Var("x"), Var("y"), Idx("a", IntLit(1)), Idx("a", Var("x"))}
-      [] ty = "float" -> {FloatLit(0, 0), FloatLit(1, 0), FloatLit(5, 1), Var("f"), Var("g"), Idx("fa", IntLit(0))}
+    CASE ty = "int" -> {IntLit(0), IntLit(1), IntLit(2), IntLit(-1), Var("x"), Var("y"), Idx("a", IntLit(1)), Idx("a", Var("x"))}
+      [] ty = "float" -> {FloatLit(0, 0), FloatLit(1, 0), FloatLit(5, 1), FloatLit(-1, 0), Var("f"), Var("g"), Idx("fa", IntLit(0))}
       [] ty = "bool" -> {BoolLit(TRUE), BoolLit(FALSE), Var("p"), Var("q")}
   ELSE
     CASE ty = "int" -> {IntLit(0), IntLit(1), Var("x")}
